@@ -29,7 +29,7 @@ def one(d):
         if r.returncode:
             res = 'patch does not apply to HEAD any more'
         else:
-            env = dict(os.environ, VERIF_REPO=wt, VERIF_OUT=out, VERIF_WORKERS='6')
+            env = dict(os.environ, VERIF_REPO=wt, VERIF_OUT=out, VERIF_WORKERS=os.environ.get("VERIF_WORKERS", "6"), VERIF_CAP_S=os.environ.get("VERIF_CAP_S", "7200"))
             r = subprocess.run([ROOT + '/check', pid, '--tier', tier], capture_output=True, text=True, env=env)
             sigs = [l.strip()[:300] for l in r.stdout.splitlines() if 'violation sig' in l]
             res = 'silent' if r.returncode == 0 and 'VIOLATION' not in r.stdout else f'ALARM exit={r.returncode}: ' + ' | '.join(sigs[:6])
@@ -42,6 +42,6 @@ def one(d):
 
 
 dirs = sorted(d for d in glob.glob(ROOT + '/benign/*') if os.path.exists(d + '/patch.diff') and (not args or os.path.basename(d).startswith(tuple(args))))
-with cf.ThreadPoolExecutor(3) as ex:
+with cf.ThreadPoolExecutor(int(os.environ.get("RECHECK_PAR", "3"))) as ex:
     for name, res in ex.map(one, dirs):
         print(name, tier, res, flush=True)
